@@ -174,6 +174,11 @@ def run_engine(tier="quick", seed=0, langs=LANGS, use_cache=True):
         entry = {"text": text, "langs": {}, "model": resp["model"], "names": names}
         programs[pid] = entry
         for lang, step in zip(langs, resp["steps"]):
+            if "error" in step:
+                # the generator refuses the program with an error (e.g. no root packet for Lua/Python/C++)
+                stats["generator_errors"] = stats.get("generator_errors", 0) + 1
+                entry["langs"][lang] = {"error": step["error"]}
+                continue
             if "panic" in step:
                 stats["generator_panics"] += 1
                 entry["langs"][lang] = {"panic": step["panic"], "frames": step.get("frames")}
